@@ -160,7 +160,7 @@ Section Located.
   Proof.
     intros s i l0 rest Hpos. unfold instr_step.
     destruct (skipn (count_while is_space l0) l0) as [|ch r0].
-    - destruct rest; [exact I|]. apply skip_cursor_good. assumption.
+    - apply skip_cursor_good. assumption.
     - destruct (ch =? c_btick).
       + destruct (find_char c_btick r0).
         * apply skip_cursor_good. assumption.
@@ -238,7 +238,7 @@ Section Located.
           { destruct (c + count_while is_space (skipn c lm) <? length lm)%nat; [apply NI|apply NL]. }
           destruct (skipn c lm); [destruct restm|]; try exact G. discriminate. }
         destruct (skipn (count_while is_space l0) l0) as [|ch r0].
-        + destruct rest; [discriminate|]. eapply NC; eassumption.
+        + eapply NC; eassumption.
         + destruct (ch =? c_btick).
           * destruct (find_char c_btick r0); [eapply NC; eassumption|].
             destruct (find_btick_lines (n + 1) rest) as [[[[m lm] c] restm]|]; [eapply NC; eassumption|discriminate].
